@@ -20,6 +20,7 @@ import (
 	"bytes"
 	"context"
 	"errors"
+	"net/url"
 	"sync"
 	"time"
 
@@ -163,6 +164,13 @@ func (p *provider) watchChanges(ctx context.Context, rsf RuleSetFetcher) error {
 
 		if !errors.Is(err, config2.ErrEmptyRuleSet) &&
 			(errors.Is(err, heimdall.ErrInternal) || errors.Is(err, heimdall.ErrConfiguration)) {
+			return err
+		}
+
+		// in case of network issues, like dns errors, timeouts and alike, the rule set
+		// previously received from the endpoint is preserved
+		var netErr *url.Error
+		if errors.As(err, &netErr) {
 			return err
 		}
 
